@@ -18,6 +18,15 @@ Request (one line, single spaces):
   `aftersend` dies after writing the complete result message,
   `unpicklefail` `call_queue.get()` raises in the worker (`sys.exit()` while unpickling): `_RemoteTraceback`, exit,
   `taskexc`   the task raises (`sys.exit()` in the task or while its result is pickled): no death at all.
+Third request form (the FINE-GRAINED layer of the model: wait set, wake-up pipe, shutdown lock; `wstep`):
+`fine <managerFirst 0|1> <closeUnlocked 0|1> <wakeupBeforeRespawn 0|1> <fresh|idled> <n_jobs> <queue_size> <n_tasks> <nfaults>
+(<task> <class>)*` — ONE call on a FRESH executor, or (`idled`) on an executor that has served one task and whose workers
+have ALL left cleanly since (idle time-out) and been reaped; the caller's `submit`s, its wait and its abort (`shutdown(kill_workers=True)` + join) run statement by
+statement against the manager's statements and the workers → `fouts <w> <outcome> | <outcome> …` with outcomes `ok`,
+`<ExceptionClass>`, `OSError` (raised by the abort's own wake-up write), `hang`; `<w>` = 1 iff some explored state has the
+caller between the `_closed` test and the write of `wakeup()` with the pipe already closed. `0 0 0` is the code as it is (`0 0 1`: before the repair F53).
+Calls of at most 4 tasks: every interleaving; larger calls: the workers move only once every task is submitted (as in `scn`).
+An exhausted exploration budget shows as the extra outcome `fuel`.
 Second request form: `exitname <exit code> <k> (<signal number> <name>)*` → `name <s>` | `raises ValueError`
 (`_get_exitcode_name` with `signal.Signals` given as a table).
 
@@ -402,6 +411,151 @@ def insertSorted (x : String) : List String → List String
 
 def sortStrings (l : List String) : List String := l.foldr insertSorted []
 
+/-! #### the fine-grained layer: one call on a fresh executor, statement by statement -/
+
+inductive FPhase where
+  | submitting (i : Nat)     -- the caller is dispatching; `i` tasks have been handed to `submit`
+  | waiting                  -- every task submitted; the caller waits for the futures
+  | aborting (e : Exc)       -- a future (or `submit`) raised `e`: `shutdown(kill_workers=True)` entered
+  | joining (e : Exc)        -- … `executor_manager_thread.join()`
+deriving DecidableEq, Repr, Hashable
+
+structure FNode where
+  w : WState
+  ph : FPhase
+deriving DecidableEq, Repr, Hashable
+
+inductive FOut where
+  | node (n : FNode)
+  | final (o : String)
+
+/-- The caller thread's next move (`none`: it is blocked). `base0` = the work id of the call's first task. -/
+def callerMove (cfg : Cfg) (base0 nTasks : Nat) (n : FNode) : Option FOut :=
+  let s := n.w
+  let abort (e : Exc) : FOut := .node ⟨wstep cfg fnTask s (.callShutdown true), .aborting e⟩
+  if s.oserror then some (.final "OSError")
+  else
+    match n.ph with
+    | .submitting i =>
+      if s.cpc ≠ .idle then some (.node ⟨wstep cfg fnTask s .caller, n.ph⟩)
+      else if i < nTasks then
+        match s.base.flags.broken with
+        | some b => some (abort b)                                    -- `submit` raises the stored error
+        | none =>
+          if s.base.flags.shutdown then some (abort .shutdownExecutor)
+          else some (.node ⟨wstep cfg fnTask s (.callSubmit (base0 + i)), .submitting (i + 1)⟩)
+      else some (.node ⟨s, .waiting⟩)
+    | .waiting =>
+      match callStatus s.base (List.range' base0 nTasks) with
+      | some .ok => some (.final "ok")
+      | some (.exc e) => some (abort e)
+      | _ => none
+    | .aborting e =>
+      if s.cpc = .idle then some (.node ⟨s, .joining e⟩)
+      else
+        let s' := wstep cfg fnTask s .caller
+        if s' == s then none else some (.node ⟨s', n.ph⟩)
+    | .joining e =>
+      if s.base.mgr == .notStarted || s.base.mgr == .crashed || (s.base.mgr == .exited && s.mph == .done) then
+        some (.final (excName e))
+      else none
+
+def iter {α} (f : α → α) : Nat → α → α
+  | 0, a => a
+  | k + 1, a => iter f k (f a)
+
+/-- An executor that has served one task and whose workers have all left cleanly (idle time-out) and been reaped:
+`submit`, manager, one worker runs the task, the result is delivered; every worker announces its exit, the manager
+reaps it. The manager thread is alive, inside `wait`, `len(_processes) = 0 < max_workers`. -/
+def idledStart (cfg : Cfg) (nj qs : Nat) : WState :=
+  let ev (s : WState) (e : WEvent) := wstep cfg fnTask s e
+  let s := ev (WState.init nj qs (firstPid 0)) (.callSubmit 0)
+  let s := iter (fun s => ev s .caller) (nj + 8) s
+  let s := iter (fun s => ev s .manager) 4 s
+  let s := ev (ev s (.env (.take (firstPid 0)))) (.env (.sendResult (firstPid 0)))
+  let s := iter (fun s => ev s .manager) 4 s
+  (List.range nj).foldl (fun s k => iter (fun s => ev s .manager) 3 (ev s (.env (.announceExit (firstPid 0 + k))))) s
+
+structure FVisited where
+  buckets : Array (List FNode)
+
+def FVisited.empty : FVisited := ⟨Array.replicate 8192 []⟩
+def FVisited.slot (v : FVisited) (n : FNode) : Nat := (hash n).toNat % v.buckets.size
+def FVisited.contains (v : FVisited) (n : FNode) : Bool :=
+  match v.buckets[v.slot n]? with
+  | some l => l.contains n
+  | none => false
+def FVisited.insert (v : FVisited) (n : FNode) : FVisited :=
+  let i := v.slot n
+  match v.buckets[i]? with
+  | some l => ⟨v.buckets.set! i (n :: l)⟩
+  | none => v
+
+/-- Symmetry reduction as in `canonState`: renaming the pids is a symmetry of the fine layer as long as the wait set is
+closed under it — it names every process, or none (or the manager is not inside `wait`). Otherwise: left alone. -/
+def canonW (s : WState) : WState :=
+  let ok := match s.mph with
+    | .waiting ws => ws == pidsOf s.base.processes || ws.isEmpty
+    | _ => true
+  if ok then { s with base := canonState s.base } else s
+
+def canonN (n : FNode) : FNode := { n with w := canonW n.w }
+
+def betweenTestAndWriteClosed (s : WState) : Bool :=
+  (s.cpc == .subWrite || s.cpc == .shutWrite) && s.closed
+
+/-- Every interleaving of the caller's statements, the manager's statements (`wstep … .manager`), worker takes and task
+completions. Returns the outcomes and whether a state "between test and write, pipe closed" was met. -/
+def exploreFine (cfg : Cfg) (base0 nTasks : Nat) (victims : List (Nat × FaultCls)) :
+    Nat → List FNode → FVisited → List String × Bool → List String × Bool
+  | 0, _, _, acc => (if acc.1.contains "fuel" then acc.1 else "fuel" :: acc.1, acc.2)
+  | _, [], _, acc => acc
+  | fuel + 1, n :: stack, visited, acc =>
+    if visited.contains n then exploreFine cfg base0 nTasks victims fuel stack visited acc
+    else
+      let visited := visited.insert n
+      let acc := (acc.1, acc.2 || betweenTestAndWriteClosed n.w)
+      let add (o : String) (a : List String × Bool) := (if a.1.contains o then a.1 else o :: a.1, a.2)
+      let s := n.w
+      let sm := wstep cfg fnTask s .manager
+      -- calls of more than 4 tasks: the workers move once every task is submitted (the assumption of `exploreCall`:
+      -- "submits a call's tasks up front"); smaller calls: full interleaving
+      let frozen := nTasks > 4 && (match n.ph with | .submitting _ => true | _ => false)
+      let envs : List WState :=
+        if frozen then [] else
+        (match workerTake victims s.base with | some sw => [{ s with base := sw }] | none => []) ++
+        (busyWorkers s.base).map (fun (p, it) => { s with base := workerFinish victims s.base p it })
+      let others : List FNode := (([sm] ++ envs).filter (fun x => x != s)).map (fun x => ⟨x, n.ph⟩)
+      match callerMove cfg base0 nTasks n with
+      | some (.final o) =>
+        -- the call is over for the caller; nothing after it is observed
+        exploreFine cfg base0 nTasks victims fuel stack visited (add o acc)
+      | some (.node c) => exploreFine cfg base0 nTasks victims fuel ((c :: others).map canonN ++ stack) visited acc
+      | none =>
+        if others.isEmpty then exploreFine cfg base0 nTasks victims fuel stack visited (add "hang" acc)
+        else exploreFine cfg base0 nTasks victims fuel (others.map canonN ++ stack) visited acc
+
+/-- `fine <managerFirst> <closeUnlocked> <wakeupBeforeRespawn> <fresh|idled> <n_jobs> <queue_size> <n_tasks> <nfaults> (<task> <class>)*`. -/
+def handleFine (toks : List String) : String :=
+  match toks with
+  | mf :: cu :: wb :: start :: nj :: qs :: nt :: nf :: r =>
+    match bool? mf, bool? cu, bool? wb, nj.toNat?, qs.toNat?, nt.toNat?, nf.toNat? with
+    | some mf, some cu, some wb, some nj, some qs, some nt, some nf =>
+      match parseFaults nf r with
+      | some (fs, []) =>
+        if nj < 2 || qs = 0 || nt = 0 || fs.any (fun f => f.1 ≥ nt) || (fs.map (·.1)).eraseDups.length ≠ fs.length
+            || (start ≠ "fresh" && start ≠ "idled") then "bad-op"
+        else
+          let cfg : Cfg := ⟨mf, cu, wb⟩
+          let w0 : WState := if start = "fresh" then WState.init nj qs (firstPid 0) else idledStart cfg nj qs
+          let base0 := w0.base.futures.length
+          let victims := fs.map fun (t, k) => (base0 + t, k)
+          let (outs, w) := exploreFine cfg base0 nt victims 400000 [⟨w0, .submitting 0⟩] FVisited.empty ([], false)
+          "fouts " ++ (if w then "1 " else "0 ") ++ " | ".intercalate (sortStrings outs)
+      | _ => "bad-op"
+    | _, _, _, _, _, _, _ => "bad-op"
+  | _ => "bad-op"
+
 def parseNames : Nat → List String → Option (List (Nat × String))
   | 0, [] => some []
   | 0, _ => none
@@ -429,6 +583,7 @@ def handleExitname (toks : List String) : String :=
 def handle (line : String) : String :=
   match tokens line with
   | "exitname" :: r => handleExitname r
+  | "fine" :: r => handleFine r
   | _ =>
   match parseScn line with
   | none => "bad-op"
